@@ -1668,13 +1668,15 @@ func (x *Exec) autoInvariants(st *State, fr *Frame, lp *Loop, b *ssa.BasicBlock)
 			continue
 		}
 		var init *ssa.Const
+		var initAny ssa.Value
 		okShape := true
+		dir := 0 // +1: only ever incremented on the back edges, -1: only ever decremented
 		for i, p := range b.Preds {
 			e := phi.Edges[i]
 			if lp.blocks[p] {
-				// back edge: must be phi + positive const (possibly via one BinOp)
+				// back edge: must be phi +/- positive const (possibly via one BinOp)
 				bo, ok := e.(*ssa.BinOp)
-				if !ok || bo.Op != token.ADD {
+				if !ok || (bo.Op != token.ADD && bo.Op != token.SUB) {
 					okShape = false
 					break
 				}
@@ -1683,17 +1685,48 @@ func (x *Exec) autoInvariants(st *State, fr *Frame, lp *Loop, b *ssa.BasicBlock)
 					okShape = false
 					break
 				}
-				if v, _ := constant.Int64Val(c.Value); v <= 0 {
+				v, _ := constant.Int64Val(c.Value)
+				if bo.Op == token.SUB {
+					v = -v
+				}
+				d := 1
+				if v < 0 {
+					d = -1
+				}
+				if v == 0 || (dir != 0 && dir != d) {
 					okShape = false
 				}
+				dir = d
 			} else {
 				c, ok := e.(*ssa.Const)
 				if !ok {
-					okShape = false
-					break
+					// a loop-invariant start value computed before the loop
+					if ins, isIns := e.(ssa.Instruction); isIns && lp.blocks[ins.Block()] {
+						okShape = false
+						break
+					}
+					initAny = e
+					continue
 				}
 				init = c
 			}
+		}
+		if okShape && init == nil && initAny != nil {
+			cur, ok1 := fr.env[phi].(*Term)
+			iv, ok2 := fr.env[initAny].(*Term)
+			if ok1 && ok2 && iv.Sort == "Int" && dir > 0 {
+				out = append(out, autoInv{name: phiName(phi), t: Cmp(">=", cur, iv)})
+			} else if ok1 && ok2 && iv.Sort == "Int" && dir < 0 {
+				out = append(out, autoInv{name: phiName(phi) + "-upper", t: Cmp("<=", cur, iv)})
+			}
+			continue
+		}
+		if okShape && init != nil && dir < 0 {
+			if cur, ok := fr.env[phi].(*Term); ok {
+				iv, _ := constant.Int64Val(init.Value)
+				out = append(out, autoInv{name: phiName(phi) + "-upper", t: Cmp("<=", cur, IntT(iv))})
+			}
+			continue
 		}
 		if !okShape || init == nil {
 			continue
@@ -1792,8 +1825,21 @@ func (x *Exec) srcAt(pos token.Pos) string {
 // truth value inside t and re-folds.  Purely an optimisation.
 func simplifyUnder(t *Term, pc *PC) *Term {
 	facts := map[string]*Term{}
+	var atoms []*Term
+	var flatten func(t *Term, depth int)
+	flatten = func(t *Term, depth int) {
+		if t.Kind == KApp && t.Op == "and" && depth < 3 {
+			for _, c := range t.Args {
+				flatten(c, depth+1)
+			}
+			return
+		}
+		atoms = append(atoms, t)
+	}
 	for q := pc; q != nil; q = q.parent {
-		a := q.t
+		flatten(q.t, 0)
+	}
+	for _, a := range atoms {
 		val := True
 		if a.Kind == KApp && a.Op == "not" {
 			a = a.Args[0]
